@@ -17,6 +17,7 @@ import (
 	"os"
 	"strings"
 	"sync"
+	"sync/atomic"
 	"testing"
 	"time"
 
@@ -332,6 +333,48 @@ func TestBoundedC07Tasks(t *testing.T) {
 		mu.Unlock()
 	}
 
+	// ---- a task that submits itself again from inside its function (each of the three ways): it runs
+	// once more per submission, never at the same time as itself
+	for _, kind := range kinds {
+		cases++
+		desc := "a task submits itself again from inside its function by " + kind + ", twice"
+		var selfRuns, selfRunning int32
+		var selfOverlap int32
+		var self *Task
+		self = m.NewTask("self", func(context.Context, *Task) error {
+			if atomic.AddInt32(&selfRunning, 1) > 1 {
+				atomic.StoreInt32(&selfOverlap, 1)
+			}
+			n := atomic.AddInt32(&selfRuns, 1)
+			if n <= 2 {
+				switch kind {
+				case "Q":
+					self.Queue()
+				case "P":
+					self.QueuePrioritized()
+				case "A":
+					self.StartASAP()
+				}
+			}
+			time.Sleep(runTime)
+			atomic.AddInt32(&selfRunning, -1)
+			return nil
+		})
+		self.Queue()
+		deadline := time.Now().Add(5 * time.Second)
+		for atomic.LoadInt32(&selfRuns) < 3 && time.Now().Before(deadline) {
+			time.Sleep(time.Millisecond)
+		}
+		time.Sleep(4 * runTime)
+		if n := atomic.LoadInt32(&selfRuns); n != 3 {
+			fail(fmt.Sprintf("%s: it ran %d times, want 3 (once per submission)", desc, n))
+		}
+		if atomic.LoadInt32(&selfOverlap) != 0 {
+			fail(desc + ": it ran at the same time as itself")
+		}
+		self.Cancel()
+	}
+
 	// ---- a task submitted twice while waiting runs once; submitted again after it ran, it runs again
 	cases++
 	mu.Lock()
@@ -480,7 +523,7 @@ func TestBoundedC07Tasks(t *testing.T) {
 		}
 	}
 
-	fmt.Printf("BOUNDED name=C07/task-order cases=%d distinct=%d bound=every sequence of up to %d submissions by Queue / QueuePrioritized / StartASAP made while a task occupies the queue, without and with the cancellation of one of them (all positions up to length 2; at length 3 the middle one in the quick tier, all in the thorough tier; none at length 4); 7 sequences that submit one task more than once in different ways; a running task submitted again and cancelled (3 ways); a task queued twice and queued again after it ran; 6 schedule scenarios (idle and busy queue, cancelled, moved to a later time, an earlier entry added later); one submitting goroutine, every task runs for %s\n", cases, cases, maxLen, runTime)
+	fmt.Printf("BOUNDED name=C07/task-order cases=%d distinct=%d bound=every sequence of up to %d submissions by Queue / QueuePrioritized / StartASAP made while a task occupies the queue, without and with the cancellation of one of them (all positions up to length 2; at length 3 the middle one in the quick tier, all in the thorough tier; none at length 4); 7 sequences that submit one task more than once in different ways; a running task submitted again and cancelled (3 ways); a task submitting itself again from inside its function (3 ways); a task queued twice and queued again after it ran; 6 schedule scenarios (idle and busy queue, cancelled, moved to a later time, an earlier entry added later); one submitting goroutine, every task runs for %s\n", cases, cases, maxLen, runTime)
 	if fails > 0 {
 		t.Fatalf("%d checks of %d cases fail", fails, cases)
 	}
